@@ -11,9 +11,20 @@
 (*   model, cached_int, cached_amp                                            *)
 (*                 tf_pwa/config_loader/config_loader.py _get_model           *)
 (*                 (ModelCachedInt, ModelCachedAmp, Model_cfit_cached)        *)
-(* plus one property of the decay card that the applicability depends on:     *)
+(* plus properties of the decay card / sample that the applicability or the   *)
+(* exercised code paths depend on:                                            *)
 (*   float_shape   a line-shape parameter (resonance mass) is floated and     *)
 (*                 changes between evaluations                                *)
+(*   charged       the sample carries charges (data_charge / phsp_charge ->   *)
+(*                 charge_conjugation), a third of the events has charge -1,  *)
+(*                 the card has a parity-violating vertex and a polarised     *)
+(*                 parent (otherwise charge conjugation is invisible)         *)
+(*   cp_trans      data option: TRUE (default) the momenta of charge -1       *)
+(*                 events are mirrored (cal_angle.parity_trans in the         *)
+(*                 preprocessor) and the helicity swap is switched off        *)
+(*                 (decay_config.disable_allow_cc); FALSE the decays swap     *)
+(*                 H(l1,l2) -> H(-l1,-l2) for those events (amp/core.py       *)
+(*                 get_helicity_amp & co. read all_data["charge_conjugation"]) *)
 (*                                                                            *)
 (* Every combination is one TLC state.  Applicable(s) says whether C05        *)
 (* quantifies over it; Reason(s) names the violated clause otherwise.  The    *)
@@ -36,11 +47,13 @@ NllModels == {"default", "cached_int", "cached_amp", "cfit", "cfit_cached"}
 
 All == [amp_model : AmpModels, preprocessor : Preprocessors,
         use_tf_function : BOOLEAN, jit_compile : BOOLEAN, no_id_cached : BOOLEAN,
-        lazy_call : BOOLEAN, nll : NllModels, float_shape : BOOLEAN]
+        lazy_call : BOOLEAN, nll : NllModels, float_shape : BOOLEAN,
+        charged : BOOLEAN, cp_trans : BOOLEAN]
 
 Default == [amp_model |-> "default", preprocessor |-> "default",
             use_tf_function |-> FALSE, jit_compile |-> FALSE, no_id_cached |-> FALSE,
-            lazy_call |-> FALSE, nll |-> "default", float_shape |-> FALSE]
+            lazy_call |-> FALSE, nll |-> "default", float_shape |-> FALSE,
+            charged |-> FALSE, cp_trans |-> TRUE]
 
 --------------------------------------------------------------------------
 (* which preprocessor produces the data an amplitude model reads             *)
@@ -58,8 +71,10 @@ PairOK(a, p) ==
 
 \* options without effect are not separate strategies (canonical form):
 \* jit_compile and no_id_cached are only read by the tf.function wrapper
+\* cp_trans is only read for events with charge -1
 Canonical(x) == /\ x.jit_compile => x.use_tf_function
                 /\ x.no_id_cached => x.use_tf_function
+                /\ ~x.charged => x.cp_trans
 
 \* the cached likelihood models rebuild angular amplitudes from the angles in
 \* the data (build_angle_amp_matrix), so the data must contain them
@@ -73,8 +88,26 @@ CachedIntOK(x) == x.nll = "cached_int" => ~x.float_shape
 \* (probed); only the plain FCN.__call__ / Model.nll cannot take it, and the
 \* library itself avoids that call (ConfigLoader.fit: print_init_nll = False),
 \* so the NLL observer of every strategy is FCN.nll_grad
-Clauses(x) == <<PairOK(x.amp_model, x.preprocessor), Canonical(x), NllDataOK(x), CachedIntOK(x)>>
-ClauseNames == <<"pairing", "canonical", "nll_needs_angles", "cached_int_fixed_shape">>
+\* charge-conjugate samples: the library offers every strategy on them and no
+\* combination is excluded (read + probed on the unchanged tree):
+\*  - the per-event charge travels as an "extra" item through every
+\*    preprocessor (SimpleData.load_data / cal_angle, LazyCall.extra per batch)
+\*    and is part of the data every amplitude / likelihood model receives;
+\*  - cp_trans TRUE: the mirror is applied in BasePreProcessor.__call__, which
+\*    the cached_amp / cached_shape / cached_angle preprocessors inherit.  The
+\*    p4_directly preprocessor overrides __call__ and P4DirectlyAmplitudeModel
+\*    forwards center_mass, r_boost, random_z, align_ref, only_left_angle but
+\*    not cp_trans: it silently evaluates un-mirrored momenta -- other numbers
+\*    than the default evaluation, i.e. a C05 finding, not an exclusion;
+\*  - cp_trans FALSE: the swap sits in HelicityDecay.get_helicity_amp,
+\*    get_angle_helicity_amp (cached tensors) and get_factor_angle_helicity_amp
+\*    (base_factor).  The last one was written for charges but broadcasts the
+\*    charge against the wrong axis and dies inside tf.where with a shape error
+\*    -- no clear refusal, hence kept inside the quantifier as a finding.
+ChargedOK(x) == TRUE
+
+Clauses(x) == <<PairOK(x.amp_model, x.preprocessor), Canonical(x), NllDataOK(x), CachedIntOK(x), ChargedOK(x)>>
+ClauseNames == <<"pairing", "canonical", "nll_needs_angles", "cached_int_fixed_shape", "charged_sample">>
 Applicable(x) == \A i \in 1..Len(Clauses(x)) : Clauses(x)[i]
 Reason(x) == IF Applicable(x) THEN "applicable"
              ELSE ClauseNames[CHOOSE i \in 1..Len(Clauses(x)) : ~Clauses(x)[i] /\ \A j \in 1..(i - 1) : Clauses(x)[j]]
@@ -82,7 +115,7 @@ Reason(x) == IF Applicable(x) THEN "applicable"
 --------------------------------------------------------------------------
 (* option groups and distance from the default strategy                      *)
 Groups == <<{"amp_model", "preprocessor"}, {"use_tf_function", "jit_compile", "no_id_cached"},
-            {"lazy_call"}, {"nll"}, {"float_shape"}>>
+            {"lazy_call"}, {"nll"}, {"float_shape"}, {"charged", "cp_trans"}>>
 Deviates(x, g) == \E f \in Groups[g] : x[f] # Default[f]
 Dev(x) == Cardinality({g \in 1..Len(Groups) : Deviates(x, g)})
 
@@ -97,6 +130,8 @@ Baseline(x) == IF x.nll = "cfit_cached" THEN "cfit" ELSE IF x.nll = "cfit" THEN 
 \*            batched data, cached likelihood models) are combined with three
 \*            representative pairings instead of all eight
 RepPairing(x) == x.amp_model \in {"cached_amp", "cached_shape", "p4_directly"}
+ChargedPairing(x) == \/ x.amp_model \in {"cached_amp", "cached_shape", "p4_directly"} /\ x.preprocessor = x.amp_model
+                     \/ x.amp_model = "base_factor" /\ x.preprocessor = "default"
 Quick(x) ==
     \/ Dev(x) <= 1 /\ (x.jit_compile => ~x.no_id_cached)
     \/ /\ Dev(x) = 2 /\ x.amp_model = "cached_amp" /\ x.use_tf_function /\ ~x.no_id_cached /\ ~x.jit_compile
@@ -106,10 +141,20 @@ Quick(x) ==
     \* the strategy that computes the angles inside the traced graph (unknown batch size)
     \/ /\ Dev(x) = 2 /\ x.amp_model = "p4_directly" /\ x.use_tf_function /\ ~x.no_id_cached /\ ~x.jit_compile
        /\ ~x.lazy_call /\ x.nll = "default" /\ ~x.float_shape
+    \* charge-conjugate samples, both conventions: the strategies that build their own
+    \* angular tensors / angles (cached_amp, cached_shape, p4_directly) and base_factor
+    \/ /\ Dev(x) = 2 /\ x.charged /\ ChargedPairing(x)
 Thorough(x) ==
     \/ Quick(x)
+    \* charged samples: every pairing (base_factor with the default preprocessor only),
+    \* compiled, lazily batched, cached likelihood models; cached_amp compiled
+    \/ /\ x.charged /\ Dev(x) = 2 /\ ~x.float_shape /\ ~x.jit_compile /\ ~x.no_id_cached
+       /\ (x.amp_model = "base_factor" => x.preprocessor = "default")
+       /\ x.nll \in {"default", "cached_int", "cached_amp"}
+    \/ /\ x.charged /\ Dev(x) = 3 /\ x.amp_model = "cached_amp" /\ x.use_tf_function /\ ~x.jit_compile
+       /\ ~x.no_id_cached /\ ~x.cp_trans
     \/ Dev(x) <= 1
-    \/ /\ Dev(x) = 2
+    \/ /\ Dev(x) = 2 /\ ~x.charged
        /\ (x.jit_compile => (~x.no_id_cached /\ Deviates(x, 1) /\ RepPairing(x)))
        /\ ((x.lazy_call /\ Deviates(x, 1)) => x.amp_model \in {"cached_amp", "p4_directly"})
        /\ ((x.nll # "default" /\ Deviates(x, 1)) => x.amp_model = "cached_amp")
@@ -132,6 +177,9 @@ EveryValueUsable ==
     /\ \A m \in NllModels : \E x \in All : Applicable(x) /\ x.nll = m
 \* an amplitude model that reads cached tensors pairs with exactly one preprocessor
 CachedPairsUnique == s.amp_model \in {"cached_amp", "cached_shape", "p4_directly"} /\ Applicable(s) => s.preprocessor = s.amp_model
+\* no strategy is excluded on charged samples (adjudicated above): the applicable
+\* strategies of a charged sample are the applicable strategies of the plain one
+ChargedSameAsPlain == s.charged => (Applicable(s) <=> Applicable([s EXCEPT !.charged = FALSE, !.cp_trans = TRUE]))
 \* the property's own side condition
 CachedIntNeedsFixedShape == Applicable(s) /\ s.nll = "cached_int" => ~s.float_shape
 \* the tier selections only contain strategies the property quantifies over is
